@@ -13,6 +13,21 @@ from vlib.core import ShardCtx, ShardResult, Triage, Finding, PropertyViolation
 from vlib.diag import exception_signature
 
 
+class TooManyHangs(Exception):
+    pass
+
+
+class EpisodeHang(BaseException):
+    """Raised by the watchdog (BaseException: it must cross the catch-all guards of the code under test)."""
+
+
+EPISODE_WALL_LIMIT = 20.0   # seconds of real time for one episode (typical: 0.1 - 0.5 s)
+
+
+def _alarm(signum, frame):
+    raise EpisodeHang()
+
+
 class EpisodeCheck:
     """One property = a generator profile + monitors + an evaluation function.
 
@@ -22,7 +37,12 @@ class EpisodeCheck:
 
     def __init__(self, property_id: str, strategy, make_monitors: Callable, evaluate: Callable, classify: Callable,
                  quick: int, thorough: int, use_suffix: bool = True, suffix_kwargs: Optional[dict] = None,
-                 sample: Optional[Callable] = None, reduce_budget: int = 40):
+                 sample: Optional[Callable] = None, reduce_budget: int = 40, hang_is_finding: bool = False,
+                 partial_on_hang: bool = False):
+        self.hang_is_finding = hang_is_finding
+        self.partial_on_hang = partial_on_hang
+        self.hangs: List[str] = []
+        self.stop_after_this: Optional[str] = None
         self.property_id = property_id
         self.strategy = strategy
         self.make_monitors = make_monitors
@@ -39,12 +59,35 @@ class EpisodeCheck:
     def execute(self, episode: dict):
         """Runs the episode; returns (findings, nontrivial, classes, extra). Harness errors propagate."""
         from clustersim.episode import Runner
+        import signal
         monitors = self.make_monitors(episode)
         runner = Runner(episode, monitors)
+        old = signal.signal(signal.SIGALRM, _alarm)
+        signal.setitimer(signal.ITIMER_REAL, EPISODE_WALL_LIMIT, 0.5)  # repeating: a shot can be lost in a gc callback
         try:
-            runner.run_prefix()
-            if self.use_suffix:
-                runner.run_suffix(**self.suffix_kwargs)
+            try:
+                runner.run_prefix()
+                if self.use_suffix:
+                    runner.run_suffix(**self.suffix_kwargs)
+            except EpisodeHang as exc:
+                signal.setitimer(signal.ITIMER_REAL, 0)
+                sig, _ = exception_signature(exc)
+                where = sig.split('@', 1)[1]
+                note = f'episode exceeded {EPISODE_WALL_LIMIT:.0f}s of real time at virtual t={runner.world.now} in {where}'
+                # what the monitors saw until then still counts (e.g. a state flip-flop is visible in the publications)
+                try:
+                    partial = list(self.evaluate(runner, monitors)) if self.partial_on_hang else []
+                except Exception:
+                    partial = []
+                if self.hang_is_finding and where != '?':
+                    return partial + [(f'hang@{where}', note)], True, ['hang']
+                self.hangs.append(note)
+                if len(self.hangs) >= 3:
+                    self.stop_after_this = note
+                return partial, False, ['inconclusive-hang']
+            finally:
+                signal.setitimer(signal.ITIMER_REAL, 0)
+                signal.signal(signal.SIGALRM, old)
             if runner.world.harness_errors:
                 raise RuntimeError(f'simulator error: {runner.world.harness_errors[:2]}')
             findings = list(self.evaluate(runner, monitors))
@@ -131,9 +174,15 @@ class EpisodeCheck:
                     result.classes[c] += 1
                 for sig, detail in findings:
                     triage.report(sig, detail, episode)
+                if check.stop_after_this:
+                    raise TooManyHangs(check.stop_after_this)
             test()
 
-        triage.collect(go)
+        try:
+            triage.collect(go)
+        except TooManyHangs as exc:
+            result.inconclusive.append(f'shard stopped after 3 episodes hit the wall-clock watchdog: {exc}')
+        result.inconclusive.extend(self.hangs[:3])
         if ctx.tier == 'quick':
             for f in result.findings:
                 try:
@@ -164,6 +213,7 @@ def fault_classes(runner) -> List[str]:
     for t, op in runner.op_log:
         if op[0] == 'restart':
             kinds.add('restart-quick' if int(op[2]) <= 8 else 'restart-slow')
-        elif op[0] in ('direct_start', 'direct_stop', 'rpc', 'exit', 'end_sync', 'swallow', 'drop'):
+        elif op[0] in ('direct_start', 'direct_stop', 'rpc', 'rpc_fuzz', 'group_ops', 'exit', 'end_sync', 'swallow',
+                       'drop'):
             kinds.add('op:' + op[0])
     return sorted(kinds)
